@@ -714,6 +714,22 @@ def lemmas(tier):
         if not ok:
             item['violation'] = {'key': 'C16/long-numeral', 'args': {'digits': n}, 'what': '%d nines evaluate to %r' % (n, r[:1])}
         out.append(item)
+    # numerals at the precision boundaries of C-level number types (a literal read through a double or a machine word
+    # would change here): each is executed through the real engine, as written and negated
+    for v in sorted({b + d for b in (2 ** 24, 2 ** 31, 2 ** 32, 2 ** 53, 2 ** 63, 2 ** 64, 10 ** 16, 10 ** 17, 10 ** 22,
+                                      10 ** 23, 2 ** 100, 2 ** 1024) for d in (-1, 0, 1, 3)}):
+        text = str(v)
+        name = 'numeral[%s]' % (text if len(text) <= 24 else text[:10] + '..%d digits' % len(text))
+        r, rn = read_engine(text), read_engine('-' + text)
+        ok = r[0] == 'ok' and type(r[1]) is int and r[1] == v and rn[0] == 'ok' and type(rn[1]) is int and rn[1] == -v
+        item = {'name': name, 'query': 'the literal %s and its negation evaluate to that integer exactly' % name[8:-1],
+                'result': 'executed', 'expected': 'equal', 'ok': ok, 'time_s': 0}
+        if not ok:
+            bad_pos = not (r[0] == 'ok' and r[1] == v)
+            item['violation'] = {'key': 'C16/lemma/%s' % name,
+                                 'args': {'text': text if bad_pos else '-' + text, 'want': v if bad_pos else -v},
+                                 'what': 'the literal %s evaluates to %r, its negation to %r' % (text, r, rn)}
+        out.append(item)
     return out
 
 
